@@ -57,7 +57,7 @@ func init() { runners["demux"] = runDemux }
 const dxGate = "demux.run.window"
 
 type dxStep struct {
-	Op   string `json:"op"` // in lread lwrite cancel stop arm rel stuck hold dlv q | ucall sopen ssend srecv sclose
+	Op   string `json:"op"` // in lread lwrite cancel stop arm rel stuck hold refuse dlv q | ucall sopen ssend srecv sclose
 	K    string `json:"k"`
 	Inc  int    `json:"inc"` // incarnation of k (0 = latest announced, the first one if none yet)
 	Pay  string `json:"pay"`
@@ -102,18 +102,19 @@ func dxEnvEv(name, key string, r *goat.Rpc, n int) Ev {
 // run loop reads and an output the per-key writers write to. All waiting is on
 // channels (durable for synctest).
 type dxShared struct {
-	mu      sync.Mutex
-	wake    chan struct{}
-	inq     []*goat.Rpc
-	hold    bool // input is delivered only against credits
-	credits int
-	stuck   bool // Write blocks
-	failed  bool // unwind: everything fails
-	nInj    int
-	nIn     int
-	nOut    int
+	mu        sync.Mutex
+	wake      chan struct{}
+	inq       []*goat.Rpc
+	hold      bool // input is delivered only against credits
+	credits   int
+	stuck     bool // Write blocks
+	refuse    int  // the next Writes (blocked ones included) are refused with an error, one each
+	failed    bool // unwind: everything fails
+	nInj      int
+	nIn       int
+	nOut      int
 	dataFirst bool
-	route   func(*goat.Rpc) // rpc mode: hand a written envelope to its client
+	route     func(*goat.Rpc) // rpc mode: hand a written envelope to its client
 }
 
 func (s *dxShared) with(f func()) {
@@ -171,6 +172,12 @@ func (s *dxShared) Write(ctx context.Context, r *goat.Rpc) error {
 			return err
 		}
 		if s.failed {
+			s.mu.Unlock()
+			return errInjected
+		}
+		if s.refuse > 0 { // a transient refusal: this envelope is lost, the transport stays up
+			s.refuse--
+			tr.emit(dxEnvEv("Refused", r.GetHeader().GetDestination(), r, 0))
 			s.mu.Unlock()
 			return errInjected
 		}
@@ -407,6 +414,8 @@ func (rt *dxRT) step(i int, st dxStep) {
 			}
 			tr.emit(e)
 		})
+	case "refuse":
+		rt.sh.with(func() { rt.sh.refuse += max(st.N, 1) })
 	case "dlv":
 		rt.sh.with(func() { rt.sh.credits += max(st.N, 1) })
 	case "q":
